@@ -514,11 +514,11 @@ func (x *Exec) obsValue(it Iface) obsVal {
 	switch u := t.Underlying().(type) {
 	case *types.Slice:
 		if b, ok := u.Elem().Underlying().(*types.Basic); ok && b.Kind() == types.Uint8 {
-			return obsVal{Kind: "bytes", Bs: it.v.([]Value)}
+			return obsVal{Kind: "bytes", Bs: append([]Value{}, it.v.([]Value)...)}
 		}
 	case *types.Array:
 		if b, ok := u.Elem().Underlying().(*types.Basic); ok && b.Kind() == types.Uint8 {
-			return obsVal{Kind: "bytes", Bs: []Value(it.v.(Array))}
+			return obsVal{Kind: "bytes", Bs: append([]Value{}, []Value(it.v.(Array))...)}
 		}
 	case *types.Pointer, *types.Interface, *types.Map, *types.Signature, *types.Chan:
 		isNil, _ := isNilValue(it.v)
